@@ -237,6 +237,10 @@ for _p in PLANS:
     if _p not in ("C06", "C17"):
         PLANS[_p]["thorough"] = PLANS[_p]["thorough"] + [J("fuzz", "fuzz", seconds=120)]
 
+#   fuzz-asan : the same under AddressSanitizer, for the properties about unsafe containers / frozen maps
+for _p in ("C18", "C19", "C20", "C13"):
+    PLANS[_p]["thorough"] = PLANS[_p]["thorough"] + [J("fuzz-asan", "fuzz-asan", seconds=90)]
+
 LEVELS = {p: "exploration" for p in PLANS}
 LEVELS["C12"] = "fault_enumeration"
 LEVELS["C17"] = "translation_validation"
@@ -340,9 +344,9 @@ FUZZ_FLAGS = ("-Cpasses=sancov-module -Cllvm-args=-sanitizer-coverage-level=4 -C
               "-Cllvm-args=-simplifycfg-branch-fold-threshold=0 -Cdebug-assertions -Ccodegen-units=1")
 
 
-def build_fuzz():
-    """libFuzzer binary of harness/fuzz (coverage instrumentation, debug assertions on, no sanitizer:
-    memory safety is decided by the Miri / ASan jobs). Returns the path of the binary."""
+def build_fuzz(asan=False):
+    """libFuzzer binary of harness/fuzz (coverage instrumentation, debug assertions on; with
+    `asan` also AddressSanitizer). Returns the path of the binary."""
     hdir = crate_dir("harness")
     fdir = os.path.join(TARGET, "crates", "harness-fuzz")
     os.makedirs(fdir, exist_ok=True)
@@ -355,11 +359,11 @@ def build_fuzz():
     if not os.path.lexists(link):
         os.symlink(os.path.join(src, "fuzz_targets"), link)
     env = base_env()
-    tdir = os.path.join(TARGET, "fuzz")
+    tdir = os.path.join(TARGET, "fuzz-asan" if asan else "fuzz")
     env["CARGO_TARGET_DIR"] = tdir
-    env["RUSTFLAGS"] = f"{FUZZ_FLAGS} {NIGHTLY_FLAGS}"
+    env["RUSTFLAGS"] = f"{FUZZ_FLAGS} {NIGHTLY_FLAGS}" + (" -Zsanitizer=address -Cforce-frame-pointers=yes" if asan else "")
     cmd = ["cargo", "+nightly", "build", "--offline", "--release", "--target", "x86_64-unknown-linux-gnu", "--bin", "prop"]
-    code, path, dt = run_logged(cmd, "build-fuzz.log", env=env, cwd=fdir)
+    code, path, dt = run_logged(cmd, "build-fuzz-asan.log" if asan else "build-fuzz.log", env=env, cwd=fdir)
     if code != 0:
         raise Inconclusive(f"build of the fuzz target failed, see {path}")
     return os.path.join(tdir, "x86_64-unknown-linux-gnu", "release", "prop")
@@ -368,11 +372,12 @@ def build_fuzz():
 def run_fuzz_job(prop, tier, seed, job, jidx):
     """Coverage-guided campaign: libFuzzer mutates the choice tape of the property's own generator,
     the property's own monitor judges every execution (harness/src/fuzz.rs)."""
-    binary = build_fuzz()
-    native = build_rvmon("native")
+    asan = job["kind"] == "fuzz-asan"
+    binary = build_fuzz(asan)
+    native = build_rvmon("asan" if asan else "native")
     label = job["label"]
     seconds = int(os.environ.get("VERIF_FUZZ_SECONDS", job.get("seconds", 120)))
-    work = os.path.join(TARGET, "fuzz-work", prop)
+    work = os.path.join(TARGET, "fuzz-work", prop + ("-asan" if asan else ""))
     out = os.path.join(work, "out")
     art = os.path.join(work, "artifacts")
     corpus = os.path.join(TARGET, "fuzz-corpus", prop)
@@ -390,10 +395,12 @@ def run_fuzz_job(prop, tier, seed, job, jidx):
     env = base_env()
     env["RVMON_FUZZ_PROP"] = prop
     env["RVMON_FUZZ_OUT"] = out
+    if asan:
+        env["ASAN_OPTIONS"] = "detect_leaks=1:halt_on_error=1:abort_on_error=1:detect_stack_use_after_return=0"
     cmd = [binary, corpus, f"-fork={JOBS}", f"-max_total_time={seconds}", "-timeout=120", "-rss_limit_mb=4096", "-len_control=0", "-max_len=4096",
            "-ignore_crashes=1", "-ignore_timeouts=1", "-ignore_ooms=1", f"-artifact_prefix={art}/", f"-seed={seed * 1009 + jidx}"]
     code, logp, dt = run_logged(cmd, f"{prop}-{label}.log", env=env, cwd=work, timeout=seconds + 1800)
-    j = dict(label=label, code=0 if code == 0 else code, log=logp, wall_s=dt, cmd=" ".join(["prop"] + cmd[1:]))
+    j = dict(label=label, code=0 if code == 0 else code, log=logp, wall_s=dt, cmd=" ".join(["prop"] + cmd[1:]), sanitizer=asan)
     # observations of the monitors, per fuzzing process
     merged = dict(evaluations=0, cases=0, distinct=0, distinct_nontrivial=0, counters={}, maxima={}, sets={}, samples=[], inconclusive={}, notes=[], violations=[], inconclusive_reasons=[])
     execs = 0
@@ -433,7 +440,10 @@ def run_fuzz_job(prop, tier, seed, job, jidx):
         rp = os.path.join(REPLAY, prop, f"fuzz-tape-{base}")
         shutil.copy(f, rp)
         try:
-            p = subprocess.run([native, prop, "--tape", rp], stdout=subprocess.PIPE, stderr=subprocess.STDOUT, env=base_env(), timeout=600, text=True, errors="replace")
+            renv = base_env()
+            if asan:
+                renv["ASAN_OPTIONS"] = "detect_leaks=1:halt_on_error=1:abort_on_error=0:detect_stack_use_after_return=0"
+            p = subprocess.run([native, prop, "--tape", rp], stdout=subprocess.PIPE, stderr=subprocess.STDOUT, env=renv, timeout=600, text=True, errors="replace")
             c2, txt = p.returncode, p.stdout
         except subprocess.TimeoutExpired:
             c2, txt = -999, "native re-run exceeded 600 s"
@@ -446,7 +456,9 @@ def run_fuzz_job(prop, tier, seed, job, jidx):
         elif c2 == 2:
             merged["inconclusive_reasons"].append(f"fuzzer artifact {base} is inconclusive when re-run natively")
         else:
-            merged["violations"].append(dict(kind=f"the process is killed by one case (exit {c2})", detail=f"`rvmon {prop} --tape {rp}`: {txt[-300:]}", replay=rp))
+            m = re.search(r"ERROR: (AddressSanitizer|LeakSanitizer): ([a-zA-Z-]+)", txt)
+            kind = f"asan: {m.group(2)} (fuzzer artifact re-run alone)" if m else f"the process is killed by one case (exit {c2})"
+            merged["violations"].append(dict(kind=kind, detail=f"`rvmon {prop} --tape {rp}`: {txt[-300:]}", replay=rp))
     # what libFuzzer reports about the exploration
     cov = ft = corp = 0
     try:
@@ -527,7 +539,7 @@ def run_property(prop, tier, seed):
                 import c17
                 c17.run(prop, tier, seed, job, res)
                 continue
-            if job["kind"] == "fuzz":
+            if job["kind"] in ("fuzz", "fuzz-asan"):
                 jobs = run_fuzz_job(prop, tier, seed, job, jidx)
             else:
                 jobs = run_rvmon_job(prop, tier, seed, job, jidx)
